@@ -1,6 +1,6 @@
 #!/bin/bash
 # build.sh <variant>   -> $B/jsim-<variant>  (json-c compiled from $REPO's current working tree)
-. /verif/scripts/common.sh
+. "$(dirname "${BASH_SOURCE[0]}")/common.sh"
 variant=${1:?variant}
 variant_flags "$variant"
 
@@ -39,7 +39,7 @@ if [ ! -f "$OD/.stamp" ] || [ "$(cat "$OD/.stamp")" != "$srchash" ]; then
 fi
 
 # ---- harness objects
-make -s -C "$V" -j"$JOBS" VARIANT="$variant" HV="$( [ "$variant" = thrassert ] && echo thr || echo "$variant")" \
+make -s -C "$V" -j"$JOBS" VDIR="$V" VARIANT="$variant" HV="$( [ "$variant" = thrassert ] && echo thr || echo "$variant")" \
 	CXX="$CXX" CC="$CC" HFLAGS="$HFLAGS" CFGDIR="$B/$CFG" REPO="$REPO" harness
 
 HV=$variant; [ "$variant" = thrassert ] && HV=thr
